@@ -36,6 +36,31 @@ CLAIMS = {
         note=NOTE_COMMON + "validate() is run with the standard tables; cased non-ASCII input and multi-character delimiters are outside the model.",
         technique="Lean 4 proof (case analysis of the header parser) + differential correspondence on malformed input incl. exception kinds",
         design="DESIGN.md §5 C15"),
+    'C01': dict(
+        text="Proved for all inputs: the one-level round trip (split, name pieces by ordinal, file under the table's row names in order, trim, join = identity on text "
+             "with no trailing empty piece, any separator, any table length) and, per version by kernel evaluation over the regenerated tables, that every segment "
+             "not on the guard list has exactly the gap-free ordered shape that lemma needs, two datatype levels down. That the full parser/encoder model "
+             "(Hl7.Pe, Hl7.Msg, with all validation branches) is that cascade is NOT yet a theorem: it is tied to /repo and to the property by the canonical "
+             "round-trip correspondence + implementation-side oracle at segment, field, component and message level (partial).",
+        note=NOTE_COMMON + "Canonical texts are those of tools/gen.py (leaves from pools the datatype layer reproduces); arbitrary leaf text is decided by C06/C13.",
+        technique="Lean 4 proof (induction; decide +kernel over regenerated tables) + differential correspondence on type-directed canonical text",
+        design="DESIGN.md §5 C01"),
+    'C02': dict(
+        text="Proved for every index and table length: a value filed under position i is rendered after exactly i separators and nothing else (also the open-ended "
+             "case for any N); per version by kernel evaluation: tables gap-free and ordered (segWF) and every declared segment instantiable in the model of the "
+             "constructor, which keeps each partial Python operation as a crash branch (segInstantiable). The thorough tier compares model and /repo on EVERY "
+             "segment position and every component/subcomponent position of every complex datatype of all 12 versions; quick does two versions by seed plus samples.",
+        note=NOTE_COMMON + "Probe values are short literals valid for the position's datatype; TOLERANT level; default delimiters.",
+        technique="Lean 4 proof + decide +kernel over regenerated tables + exhaustive differential correspondence over table positions",
+        design="DESIGN.md §5 C02"),
+    'C14': dict(
+        text="Proved for every name: resolution depends on a spelling only through its upper-case form (segment and field level incl. positional paths); whatever a "
+             "name resolves to is a declared child (or a well-formed <SEG>_<n> of an open-ended segment); otherwise only ChildNotFound / ChildNotValid. Per version by "
+             "kernel evaluation: row names distinct, long names never collide with row names. Exhaustive correspondence + oracle (write, read and delete through "
+             "every spelling) over all versions in the thorough tier.",
+        note=NOTE_COMMON + "Long names equal to an attribute of the element class are excluded by the property itself; TOLERANT level.",
+        technique="Lean 4 proof (case analysis of the resolution functions; decide +kernel over tables) + exhaustive differential correspondence",
+        design="DESIGN.md §5 C14"),
 }
 
 PENDING = {}
